@@ -162,6 +162,12 @@ def harness(seq):
             # ids of spans are pairwise distinct (also w.r.t. spans that already closed: no stale id is reissued)
             for o in range(s):
                 lines.append("    assert!(s%d != s%d);" % (s, o))
+            # the parent recorded at creation: explicit root / explicit parent / the creating thread's current span
+            p = m.parent[s]
+            if p is None:
+                lines.append("    assert!(st.span_data(&s%d).unwrap().parent().is_none());" % s)
+            else:
+                lines.append("    assert!(st.span_data(&s%d).unwrap().parent() == Some(&s%d));" % (s, p))
         elif k == "C":
             lines.append("    assert!(st.clone_span(&s%s) == s%s);" % (op[1], op[1]))
         elif k == "D":
